@@ -88,7 +88,8 @@ class Operator(Token):
                 _update_n_args(stack)
 
     def ast(self, tokens, stack, builder):
-        if self.name == '%' and tokens:  # A percent sign needs its operand.
+        # A percent sign or a binary operator needs its (left) operand.
+        if self.name not in ('+', '-', ' ', ',', ':') and tokens:
             from .operand import Operand
             t = tokens[-1]
             if not (isinstance(t, Operand) or (
